@@ -74,15 +74,15 @@ func (chunk *immunityChunk) AddItem(item *cacheItem) (has, added bool) {
 	chunk.mutex.Lock()
 	defer chunk.mutex.Unlock()
 
+	// Discard duplicates (before attempting any eviction: otherwise, the existing item itself might get evicted, then overwritten)
+	if chunk.itemExistsNoLock(item) {
+		return true, false
+	}
+
 	err := chunk.evictItemsIfCapacityExceededNoLock()
 	if err != nil {
 		// No more room for the new item
 		return false, false
-	}
-
-	// Discard duplicates
-	if chunk.itemExistsNoLock(item) {
-		return true, false
 	}
 
 	chunk.addItemNoLock(item)
